@@ -819,10 +819,10 @@ Proof.
   assert (Htb2 : s_tiebreak (with_m cfg m2) = None) by exact Htb.
   assert (Htr2 : s_transfer (with_m cfg m2) <> TRandom) by exact Htr.
   apply eq_bind_at.
-  { apply (stv_init_anonymous cand ceqb ceqb_spec (with_m cfg m2) p1 p1' Hd1 Hd1' Hp1). }
+  { apply (stv_init_anonymous cand ceqb ceqb_spec (with_m cfg m2) p1 p1' Hd1 Hd1' Hp1 (fun H => False_ind _ (Htr2 H))). }
   intros t Et.
   assert (Et1 : stv_init cand (with_m cfg m2) p1 = inl t).
-  { rewrite (stv_init_anonymous cand ceqb ceqb_spec (with_m cfg m2) p1 p1' Hd1 Hd1' Hp1). exact Et. }
+  { rewrite (stv_init_anonymous cand ceqb ceqb_spec (with_m cfg m2) p1 p1' Hd1 Hd1' Hp1 (fun H => False_ind _ (Htr2 H))). exact Et. }
   pose proof (run_stv_anonymous cand ceqb ceqb_spec (with_m cfg m2) p1 p1' s Htb2 Htr2 Hs Hd1 Hd1' Hp1) as Hrun.
   unfold mbind.
   destruct (run_stv cand ceqb (with_m cfg m2) p1 s) as [[sts sa]|e] eqn:E1;
